@@ -53,6 +53,9 @@ def build(fixdir):
     if os.path.isdir(os.path.join(CAT, 'annotated')):
         api = specs_to_ir(read_specs('annotated'))
         _compile(api, 'python_types', ['-p', 'anngen'], os.path.join(fixdir, 'anngen'))
+    if os.path.isdir(os.path.join(CAT, 'holes')):
+        api = specs_to_ir(read_specs('holes'))
+        _compile(api, 'python_types', ['-p', 'exgen'], os.path.join(fixdir, 'exgen'))
     for pair in evolution_pairs():
         for side in ('a', 'b'):
             sub = os.path.join('evolution', pair, side)
